@@ -1163,6 +1163,17 @@ class ModelMixin:
             return Opt(z3.BoolVal(False), v)
         if t in (Int, Real, Bool) and isinstance(v, Opt):
             return self.unwrap_opt(v, st, what, line)
+        from .contracts import MapT, ListOfT, SetT, ObjT
+        if isinstance(t, MapT) and isinstance(v, Ref) and st.obj(v).kind == 'dict' and t.key in ('Str',) and \
+                all(isinstance(k, str) for k in st.obj(v).items):
+            # a concrete str-keyed dict handed to a callee whose contract speaks about a map: same object, map view
+            self.promote_dict_to_smap(v, st, 'Str')
+            return v
+        if isinstance(t, (MapT, ListOfT, SetT, ObjT)) and isinstance(v, Opt):
+            # an Optional that the path condition already knows to be present (e.g. after `if x is None: x = ...`)
+            if not self.feasible(st, v.is_none):
+                return v.val
+            return self.unwrap_opt(v, st, what, line)
         return v
 
     def type_ok(self, v, t):
